@@ -28,13 +28,15 @@ CLAIMED = {
              "every concurrent specification and is model checked by TLC; on the code side every interleaving of the bounded "
              "scenarios is executed with instrumented payloads, functor captures and operator new/delete accounting and "
              "validated against the specification.",
-        note=CONC_NOTE, design="7/C03", technique="TLC invariants on ownership ghost state + trace validation with accounting"),
+        note=CONC_NOTE + "; specifications run: UniqueCore, SharedCore, Wait, When, Strand, ThreadPool in full; WaitGroup "
+             "(consumed futures, two-owner timed waiter), Await (coroutine frame and its locals) in reduced form",
+        design="7/C03", technique="TLC invariants on ownership ghost state + trace validation with accounting"),
     "C04": dict(
         text="MemModel.tla implements C++20 happens-before (release sequences, RMW continuation, fences) as specification "
              "state; every concurrent specification instantiates it; the memory order of every atomic operation is recorded "
              "from the running code and drives the model both in trace validation and in the bounded model check, so TLC "
              "reports a race exactly when the orders the code passes do not order the transcribed plain accesses.",
-        note="plain accesses are transcribed by hand; SC exploration with vector clocks (races of SC executions); weak "
+        note="specifications run: UniqueCore, SharedCore, Wait, When, Strand, ThreadPool in full; CoMutex, CoSharedMutex, WaitGroup, Await in reduced form (each in full under its own property); plain accesses are transcribed by hand; SC exploration with vector clocks (races of SC executions); weak "
              "behaviours only on the model; " + CONC_NOTE, design="7/C04",
         technique="TLA+ happens-before model driven by memory orders extracted from the code; TLC"),
     "C05": dict(
